@@ -110,6 +110,8 @@ void f_repeat_string (void) {
     {
       str = sp->u.string;
       len = SVALUE_STRLEN (sp);
+      if (len == 0)
+        return;			/* "" repeated is "": do not loop 'repeat' times over nothing */
       /* compare without multiplying: len * repeat can wrap around */
       if (len != 0 && (uint64_t)repeat > (uint64_t)CONFIG_INT (__MAX_STRING_LENGTH__) / len)
         error ("repeat_string: String too large.\n");
